@@ -443,7 +443,7 @@ impl PerVisible for ElementOrSetOperation {
         match self {
             ElementOrSetOperation::Element(e) => e.per_visible(),
             ElementOrSetOperation::SetOperation(o) => {
-                o.operant.per_visible() || o.operant.per_visible()
+                o.base.per_visible() || o.operant.per_visible()
             }
         }
     }
